@@ -741,6 +741,7 @@ func (ar *asyncRunner) start(nArgs int) {
 	ar.promiseCap = r.newPromiseCapability(r.getPromise())
 	sp := r.vm.sp
 	ar.gen.enter()
+	defer ar.gen.unwindOnPanic()
 	ar.vmCall(r.vm, nArgs)
 	res, resType, ex := ar.gen.step()
 	ar.step(res, resType == resultNormal, ex)
@@ -885,6 +886,12 @@ yielded:
 	return
 }
 
+// stepUnwind is step() for the callers that pop the frames themselves afterwards.
+func (g *generator) stepUnwind() (Value, resultType, *Exception) {
+	defer g.unwindOnPanic()
+	return g.step()
+}
+
 func (g *generator) enterNext() {
 	g.vm.pushCtx()
 	g.vm.pushTryFrame(tryPanicMarker, -1)
@@ -893,8 +900,21 @@ func (g *generator) enterNext() {
 	g.vm.resume(&g.ctx)
 }
 
+// unwindOnPanic must be deferred right after enter()/enterNext(). If an uncatchable panic (interrupt,
+// stack overflow) propagates out of the generator body the try frame and the context pushed by
+// enter()/enterNext() still have to be removed, otherwise the callers find this frame instead of
+// their own and the runtime is never returned to its idle state.
+func (g *generator) unwindOnPanic() {
+	if x := recover(); x != nil {
+		g.vm.popTryFrame()
+		g.vm.popCtx()
+		panic(x)
+	}
+}
+
 func (g *generator) next(v Value) (Value, resultType, *Exception) {
 	g.enterNext()
+	defer g.unwindOnPanic()
 	if v != nil {
 		g.vm.push(v)
 	}
@@ -906,6 +926,7 @@ func (g *generator) next(v Value) (Value, resultType, *Exception) {
 
 func (g *generator) nextThrow(v interface{}) (Value, resultType, *Exception) {
 	g.enterNext()
+	defer g.unwindOnPanic()
 	ex := g.vm.handleThrow(v)
 	if ex != nil && g.returning != nil {
 		// suspended inside a finally block that was entered by return()
@@ -931,7 +952,7 @@ func (g *generatorObject) init(vmCall func(*vm, int), nArgs int) {
 	g.gen.enter()
 	vmCall(vm, nArgs)
 
-	_, _, ex := g.gen.step()
+	_, _, ex := g.gen.stepUnwind()
 
 	vm.popTryFrame()
 	if ex != nil {
@@ -1114,7 +1135,7 @@ func (g *generatorObject) _return(v Value) Value {
 
 		return g.val.runtime.createIterResultObject(v, true)
 	}
-	res, done, ex := g.gen.step()
+	res, done, ex := g.gen.stepUnwind()
 	vm := g.gen.vm
 	vm.popTryFrame()
 	vm.popCtx()
